@@ -512,6 +512,8 @@ def iter_cases(A, driver):
 
 
 def plan(tier, seed):
+    import pkgcore.fetch.custom  # noqa: F401  (warm import: forked task workers inherit it)
+
     tasks = []
     if tier == "quick":
         for A, frac, nsl in ((1, 1.0, 1), (2, 0.25, 2), (3, 0.06, 2), (4, 0.008, 6)):
@@ -528,6 +530,8 @@ def plan(tier, seed):
         for A, frac, nsl in ((1, 1.0, 4), (2, 0.1, 8), (3, 0.005, 8)):
             for i in range(nsl):
                 tasks.append({"task": "enum", "driver": "real", "attempts": A, "slice": i, "nslices": nsl, "sample": frac})
+    # real-bash tasks first: they are the slow ones and should overlap with the simulated ones
+    tasks.sort(key=lambda t: t["driver"] != "real")
     return tasks
 
 
@@ -545,7 +549,7 @@ def run_task(ctx, task, **kw):
             continue
         if not full and rnd.random() >= sample:
             continue
-        if n % 64 == 0 and ctx.out_of_time():
+        if (n % 64 == 0 or kw["driver"] == "real") and ctx.out_of_time():
             full = False
             break
         drv.run(case)
